@@ -11,10 +11,13 @@ import (
 	"strconv"
 	"strings"
 	"sync"
+	"sync/atomic"
 	"time"
 
 	coraza "github.com/corazawaf/coraza/v3"
 	corazahttp "github.com/corazawaf/coraza/v3/http"
+	"github.com/corazawaf/coraza/v3/types"
+	"github.com/corazawaf/coraza/v3/verifharness/eng"
 	"github.com/corazawaf/coraza/v3/verifharness/vf"
 )
 
@@ -241,7 +244,8 @@ func C18(run *vf.Run) {
 				}
 			}
 		})
-		s := &srv{ts: httptest.NewServer(corazahttp.WrapHandler(w, h)), waf: w, rec: rec}
+		// the transactions the middleware creates are recorded for Flow_Trace (the connector is a driver of call orders)
+		s := &srv{ts: httptest.NewServer(corazahttp.WrapHandler(mwRecWAF{WAF: w, label: strings.ReplaceAll(text, "\n", " ; ")}, h)), waf: w, rec: rec}
 		servers[text] = s
 		return s, nil
 	}
@@ -338,4 +342,40 @@ func C18(run *vf.Run) {
 			report("handler-read-differs", e, fmt.Sprintf("the handler read %q, the client sent %q", string(read), string(body)))
 		}
 	}
+	// code -> spec: the transactions the middleware created and drove are behaviours of Flow.tla
+	// (every phase at most once, nothing evaluated after the interruption, no residual state between phases)
+	time.Sleep(200 * time.Millisecond) // the deferred ProcessLogging / Close of the last requests
+	traces := eng.GetFlowRecorder().TakeFinished()
+	if len(traces) == 0 {
+		run.Inconclusive("no middleware transaction was recorded for Flow_Trace")
+		return
+	}
+	run.Rule += ". Code -> spec: every fourth transaction the middleware created is recorded through the verif hooks and validated event by event against Flow_Trace.tla"
+	rejected, details, at, ok := eng.ValidateFlowBatches(run, traces, 20000)
+	run.Logf("Flow_Trace over %d middleware transactions: rejected %d (completed=%v)", len(traces), len(rejected), ok)
+	for i, t := range rejected {
+		ev := ""
+		if at[i] > 0 && at[i] <= len(t.Lines) {
+			ev = string(t.Lines[at[i]-1].JSON)
+		}
+		run.Violate(vf.Violation{Signature: "mw:flow-trace-rejected", What: fmt.Sprintf("a transaction driven by the middleware is not a behaviour of Flow.tla: event #%d rejected (%s) || %s || %s", at[i], details[i], t.Label, ev),
+			Replay: map[string]any{"family": "middleware-flow", "source": t.Label, "rejected_at": at[i]}})
+		break
+	}
+}
+
+// mwRecWAF hands the middleware transactions that are recorded by the flow recorder.
+type mwRecWAF struct {
+	coraza.WAF
+	label string
+}
+
+var mwRecCount atomic.Int64
+
+func (m mwRecWAF) NewTransaction() types.Transaction {
+	tx := m.WAF.NewTransaction()
+	if mwRecCount.Add(1)%4 == 0 { // every fourth transaction: the traces are small but there are many cases
+		eng.GetFlowRecorder().AttachAuto(tx, "middleware || "+m.label)
+	}
+	return tx
 }
